@@ -385,7 +385,9 @@ def _explore(nl_init, net, nl, hist, depth, res, seen, only):
             continue
         bump(res["hits"], "input_unmodified")
         if snapshot(net) != snap:
-            add_violation(res, "input_unmodified", case, snap, snapshot(net), "%s modified its input network" % op[0])
+            add_violation(res, "input_unmodified", case, snap, snapshot(net), "%s modified its input network" % op[0], kind="mutated_input")
+            # the real object no longer represents the state: rebuild it so that later transitions stay replayable
+            net = adapt.network(nl)
         if keep_objs is not None and [repr(k) for k in keep_objs] != [repr(e) for e in [b.element for b in net.branches if b.id in op[1]["keep"]]] and False:
             pass
         ok = judge_op(nl, got, op, res, case)
@@ -396,6 +398,10 @@ def _explore(nl_init, net, nl, hist, depth, res, seen, only):
             res["samples"].append({"initial": nl_init, "history": [list(h) for h in hist], "op": [op[0], op[1]], "result": got})
         if ok and depth > 1 and (only is None or len(hist) + 1 < len(only)):
             _explore(nl_init, out, got, hist + [(op[0], op[1])], depth - 1, res, seen, only)
+            if snapshot(net) != snap:
+                # a deeper operation mutated a result that shares its branch list with this state's object
+                # (already reported there as input_unmodified); restore the object of this state
+                net = adapt.network(nl)
 
 
 def expected_exception(nl, op, e):
